@@ -38,6 +38,8 @@ FORMULAS = [
     "cc(a, df=3)", "cs(a, df=4)", "C(A)", "C(A, contr.sum)", "C(A, contr.poly)", "C(A, contr.helmert)", "C(A, contr.treatment('y'))", "A",
     "log(a)", "{a*b}", "A:a", "center(a):A", "scale(center(a))", "hashed(A, levels=3)", "center(a) + scale(b) + A",
     "bs(a, df=4):A", "poly(a, 2) + C(A, contr.sum):b",
+    # the same stateful call more than once inside one factor / across factors
+    "{center(a) * center(a)}", "I(scale(a) + scale(a))", "{center(a) * center(b)} + center(a)", "{bs(a, df=4)[:, 0] + bs(a, df=4)[:, 1]}",
 ]
 
 
@@ -93,8 +95,9 @@ def drv_rows(c, ctx, col):
     rows = domain_rows(train_idx, formula)
     sel = c.seq(rows, ctx["L"], 1)
     via = c.pick(["spec.get_model_matrix", "model_matrix"])
-    key = "rows %r train=%s output=%s sel=%s via=%s" % (formula, list(train_idx), output, sel, via)
-    detail = {"formula": formula, "training_rows": list(train_idx), "selection": sel, "output": output, "via": via,
+    keep_index = c.flag()  # follow-up frame keeps the pool's index labels (duplicates, arbitrary order) instead of a fresh RangeIndex
+    key = "rows %r train=%s output=%s sel=%s via=%s keep_index=%s" % (formula, list(train_idx), output, sel, via, keep_index)
+    detail = {"formula": formula, "training_rows": list(train_idx), "selection": sel, "output": output, "via": via, "keep_index": keep_index,
               "pool": POOL.to_dict("list")}
     with warnings.catch_warnings():
         warnings.simplefilter("ignore")
@@ -109,7 +112,7 @@ def drv_rows(c, ctx, col):
         dom = POOL.iloc[rows].reset_index(drop=True)
         try:
             whole = apply_spec(ref_spec, dom, "spec.get_model_matrix")
-            sub = POOL.iloc[sel].reset_index(drop=True)
+            sub = POOL.iloc[sel] if keep_index else POOL.iloc[sel].reset_index(drop=True)
             got = apply_spec(spec, sub, via)
         except Exception as e:  # noqa
             col.violation(key, dict(detail, error="%s: %s" % (type(e).__name__, str(e)[:300])), sig="apply-raised:" + type(e).__name__)
